@@ -396,8 +396,13 @@ def impl_header(span, roots):
         txt = lines[l1 - 1][c1 - 1:] + ' ' + ' '.join(lines[l1:l2 - 1]) + ' ' + lines[l2 - 1][:c2 - 1]
     txt = ' '.join(txt.split())
     if not txt.startswith('impl'):
-        # derive attribute: the span text is the derive name (Clone, Debug, PartialEq, Animate ...)
-        return ('derive:' + txt.strip(), None)
+        # derive attribute: the span text is the derive name (Clone, Debug, PartialEq, Animate ...); the deriving type is
+        # the next struct / enum item in the source
+        target = None
+        for ln in lines[l1 - 1:l1 + 12]:
+            mm = re.search(r'\b(?:struct|enum)\s+(\w+)', ln)
+            if mm: target = mm.group(1); break
+        return ('derive:' + txt.strip(), ('@derive', target))
     txt = txt[4:].strip()
     if txt.startswith('<'):
         depth = 0
@@ -517,6 +522,9 @@ class Program:
         if mm:
             f.impl_span = (mm.group(1), int(mm.group(2)), int(mm.group(3)), int(mm.group(4)), int(mm.group(5)))
             f.impl_trait, f.impl_self = impl_header(f.impl_span, self._cur_roots)
+            f.owner = None
+            if isinstance(f.impl_self, tuple):
+                f.owner = f.impl_self[1]; f.impl_self = None
             if (f.impl_self is None or f.impl_self.startswith('$')):
                 f.impl_self = type_head(f.args[0][1]) if f.args else type_head(f.ret)
         nm = re.sub(r'<impl at [^>]*>', '<impl>', f.name)
@@ -546,9 +554,9 @@ class Program:
             f.locals[a] = t
         # nested items (fn inside a method of a macro-generated impl) are attributed to the Self type of the closest
         # preceding definition of their parent function (the dump lists nested items right after their parent)
-        f.owner = None
+        if not getattr(f, 'owner', None): f.owner = None
         segs = split_path(f.name)
-        if len(segs) >= 2:
+        if len(segs) >= 2 and f.owner is None:
             parent = '::'.join(segs[:-1])
             pf = self._last_by_name.get(parent)
             if pf is not None and pf.args:
